@@ -465,3 +465,20 @@ Proof.
   - intros out c j Hj Hl. rewrite Hbody by assumption. cbn [Nat.add fst snd].
     rewrite Nat2Z.inj_succ. reflexivity.
 Qed.
+
+(* ---------- more list facts (nested loops, windows) ---------- *)
+
+Lemma skipn_list_set_ge l i k v : skipn i (list_set l (i + k) v) = list_set (skipn i l) k v.
+Proof.
+  revert l. induction i as [|i IH]; intros l; [reflexivity|].
+  destruct l as [|x l]; [destruct k; reflexivity|]. cbn [Nat.add list_set skipn]. apply IH.
+Qed.
+
+Lemma Forall_list_set (P : Z -> Prop) l k v : Forall P l -> P v -> Forall P (list_set l k v).
+Proof.
+  intros Hl Hv. revert k. induction Hl as [|x l Hx Hl IH]; intros k; [destruct k; constructor|].
+  destruct k; cbn [list_set]; constructor; auto.
+Qed.
+
+Lemma Forall_nth_Z (P : Z -> Prop) l k : Forall P l -> (k < length l)%nat -> P (nth k l 0).
+Proof. intros Hl Hk. apply Forall_nth; assumption. Qed.
